@@ -62,6 +62,8 @@ class RX(ExchMixin, FinamInterp):
             if obj.args[0] in ("np.ma", "numpy.ma") and attr == "nomask":
                 return NOMASK
             return super().get_attr(obj, attr, node, mod)
+        if isinstance(obj, Sym) and obj.op == "CRS" and attr in ("to_epsg", "to_authority"):
+            return Sym("method", obj, attr)
         if isinstance(obj, Sym) and obj.op not in ("enum",):
             if attr in ("ravel", "query", "flatten", "reshape", "itransform", "transform"):
                 return Sym("method", obj, attr)
@@ -182,6 +184,8 @@ class RX(ExchMixin, FinamInterp):
         if isinstance(fv, Sym) and fv.op == "method":
             recv, meth = fv.args
             kw = tuple(sorted(kwargs.items()))
+            if meth in ("to_epsg", "to_authority"):
+                return None  # a custom system (proj4 / WKT definition) has no EPSG code
             if meth == "query":
                 self.queries.append((recv, args[0]))
                 return Sym("query", recv, args[0])
@@ -241,10 +245,15 @@ def find_all(v, op, acc=None):
     return acc
 
 
-def exchange(repo, cname, ctor, req, delivered, **script):
-    """Constructor, link, public get_info.  Returns (interp, adapter, outcome) with outcome ('ret', info) | ('raise', name)."""
+def exchange(repo, cname, ctor, req, delivered, it=None, **script):
+    """Constructor, link, public get_info.  Returns (interp, adapter, outcome) with outcome ('ret', info) | ('raise', name).
+    With `it` given the adapter lives in the same process as earlier ones (module-level state is shared)."""
     cls = repo.cls(cname)
-    it = RX(repo, **script)
+    if it is None:
+        it = RX(repo, **script)
+    else:
+        it.trees, it.queries, it.interps, it.evals, it.fills, it.pulls, it.mask_checks, it.grid_writes = [], [], [], [], [], [], [], []
+        it.requests = []
     ad = _adapter(repo, cls, linked=True, ctor=ctor)
     it.delivered = delivered
     f = repo.resolve(cls, "get_info", "method")
@@ -344,6 +353,14 @@ def r35x(repo, sink):
                            f"{got[1].fields['grid'] if got[0] == 'ret' and isinstance(got[1], XInfo) else None!r}")
             if ok:
                 _data_path(repo, sink, cname, it, ad, gd, key, "own-output-spec", "src", M_src, "user-out", got[1].fields["mask"], None)
+            # ---------------------------------------------------------------- two regridders in one process, custom systems (no EPSG codes)
+            req, src, gq, gs = infos(req_mask=NOMASK, src_mask=NOMASK, req_crs=Sym("CRSDEF", "req"), src_crs=Sym("CRSDEF", "src"))
+            it, ad, got = exchange(repo, cname, {}, req, src)
+            req, src, gq, gs = infos(req_mask=NOMASK, src_mask=NOMASK, req_crs=Sym("CRSDEF", "req"), src_crs=Sym("CRSDEF", "src-b"))
+            it, ad2, got2 = exchange(repo, cname, {}, req, src, it=it)
+            if got[0] == "ret" and got2[0] == "ret":
+                tr_b = Sym("transformer", Sym("CRS", Sym("CRSDEF", "req")), Sym("CRS", Sym("CRSDEF", "src-b")))
+                _data_path(repo, sink, cname, it, ad2, gd, key, "second-regridder-other-custom-crs", "src", None, "req", None, tr_b)
             # ---------------------------------------------------------------- a second target whose equal grid is laid out differently
             req, src, gq, gs = infos(req_mask=NOMASK, src_mask=NOMASK)
             it, ad, got = exchange(repo, cname, {}, req, src)
@@ -393,6 +410,22 @@ def r35x(repo, sink):
                 except Raised as r:
                     sink.check(r.name == "FinamDataError", "R35", key("undeclared-mask"), gd, ok="masked data without a declared source mask is refused",
                                bad=f"masked data without a declared mask: _get_data raises {r.name}")
+            # ---------------------------------------------------------------- the same, but the first delivery was plain data
+            it, ad, got = exchange(repo, cname, {}, req, src, masked_data=False)
+            if got[0] == "ret":
+                try:
+                    it.run(gd, [Sym("t"), Sym("target")], self_obj=ad)
+                    it.masked_data = True
+                    it.pulls, it.fills, it.evals = [], [], []
+                    try:
+                        it.run(gd, [Sym("t2"), Sym("target")], self_obj=ad)
+                        sink.bad("R35", key("undeclared-mask-later"), gd, "a source that declared no mask delivers plain data first and a masked array later: the later "
+                                 "delivery is regridded although the masked cells were never removed from the set-up (compressed values shift against the stored indices)")
+                    except Raised as r:
+                        sink.check(r.name == "FinamDataError", "R35", key("undeclared-mask-later"), gd, ok="masked data without a declared source mask is refused at every delivery",
+                                   bad=f"a later masked delivery: _get_data raises {r.name}")
+                except Raised as r:
+                    sink.bad("R35", key("undeclared-mask-later"), gd, f"plain data from a source with a flexible mask: _get_data raises {r.name}")
         except (Undecided, AnalysisError) as exc:
             sink.unknown("R35", key("end-to-end"), gi, f"outside vocabulary: {exc}")
 
